@@ -124,8 +124,19 @@ def ensureEqualDims (shapes : List Shape) (dim : Option Nat) : Except Err Unit :
 
 /-! ### the loops over `to_check` -/
 
-def ensureVectorAll (ss : List Shape) : Except Err (List Shape) := ss.mapM ensureVector
-def ensure1dAll (ss : List Shape) : Except Err (List Shape) := ss.mapM ensure1d
+/-- `for idx, xx in enumerate(to_check): …` — every array in turn, the first failure raises -/
+def allOk (f : Shape → Except Err Shape) : List Shape → Except Err (List Shape)
+  | [] => .ok []
+  | s :: ss =>
+    match f s with
+    | .error e => .error e
+    | .ok t =>
+      match allOk f ss with
+      | .ok ts => .ok (t :: ts)
+      | .error e => .error e
+
+def ensureVectorAll (ss : List Shape) : Except Err (List Shape) := allOk ensureVector ss
+def ensure1dAll (ss : List Shape) : Except Err (List Shape) := allOk ensure1d ss
 def ensure2dAll (ss : List Shape) : List Shape := ss.map ensure2d
 
 /-! ### protocol -/
@@ -147,7 +158,7 @@ def handle (o : Protocol.Op) : Option String :=
         | "2d", _ => some fun s => .ok (ensure2d s)
         | _, _ => none
       let some f := f | return "bad-op"
-      match shapes.mapM f with
+      match allOk f shapes with
       | .error e => return s!"err {e.name}"
       | .ok ts => return "ok" ++ String.join (ts.map fun t => " | " ++ fmtNats t)
   | "ENSEQ" => some <| Id.run do
